@@ -27,17 +27,19 @@ pub fn run(cfg: &RunCfg, agg: &Mutex<Agg>) {
     });
     // very long shards whose block count sits on a 16-bit boundary
     // (4 MiB = 65536 blocks): block counters, strides
-    run_cases(agg, cfg, "fft-ifft-long-shards", if cfg.thorough { 24 } else { 4 }, |cs, out| {
-        let mut rng = Rng::new(cs);
-        let size = *rng.pick(&[2usize, 2, 4, 8]);
+    run_indexed(agg, cfg, "fft-ifft-long-shards", if cfg.thorough { 64 } else { 16 }, |i, out| {
+        // the 16 combinations of (2 or 8 shards, fft / ifft, block count) come
+        // first; offsets and data are random
+        let mut rng = Rng::new(crate::util::mix(cfg.seed, i));
+        let size = [2usize, 8][(i % 2) as usize];
         let p = TransformParams {
-            inverse: rng.chance(1, 2),
-            shard_len_64: *rng.pick(&[65_535usize, 65_536, 65_536, 65_537, 131_072]),
+            inverse: (i / 2) % 2 == 1,
+            shard_len_64: [65_535usize, 65_536, 65_537, 131_072][((i / 4) % 4) as usize],
             shard_count: size,
             pos: 0,
             size,
             truncated: size,
-            skew_delta: if rng.chance(1, 2) { 0 } else { size * rng.below(65536 / size) },
+            skew_delta: if rng.chance(1, 4) { 0 } else { size * rng.range(1, 65536 / size - 1) },
         };
         transform_case_with(&mut rng, out, p, &EngineKind::fast());
     });
